@@ -247,18 +247,20 @@ func (s *sequencer) schedule(ops []opRec) ([]seqOp, int) {
 	var out []seqOp
 	dropped := 0
 	// the previous placed operation: several operations of one execution of one
-	// statement (same activation, later in the source) share one point
-	type placedAt struct{ g, serial, line, col int }
+	// statement (same activation and later in the source, or inside the same call into
+	// code outside the repository) share one point
+	type placedAt struct{ g, serial, icount, line, col int }
 	var prev placedAt
+	lastOf := map[int]placedAt{}
 	for _, op := range ops {
 		placed := false
 		for wi, w := range op.Where {
 			if wi > 0 {
 				break // only the innermost repository frame: a point further out is passed too early
 			}
-			var line, col, serial int
+			var line, col, serial, icount int
 			if h := strings.LastIndex(w, "#"); h >= 0 {
-				fmt.Sscanf(w[h+1:], "%d", &serial)
+				fmt.Sscanf(w[h+1:], "%d.%d", &serial, &icount)
 				w = w[:h]
 			}
 			i := strings.LastIndex(w, ":")
@@ -290,9 +292,16 @@ func (s *sequencer) schedule(ops []opRec) ([]seqOp, int) {
 			if op.Kind == "go" {
 				child = op.Child
 			}
-			cur := placedAt{op.G, serial, line, col}
+			cur := placedAt{op.G, serial, icount, line, col}
+			if lp, ok := lastOf[op.G]; ok && lp.serial == serial && lp.icount == icount {
+				// still inside the same call into code outside the repository (other
+				// goroutines may have run in between): no second point
+				placed = true
+				break
+			}
+			lastOf[op.G] = cur
 			if n := len(out); n > 0 && out[n-1].G == op.G && out[n-1].Key == key && child == 0 && out[n-1].Child == 0 &&
-				prev.g == op.G && prev.serial == serial && (line > prev.line || (line == prev.line && col > prev.col)) {
+				prev.g == op.G && prev.serial == serial && (prev.icount == icount || line > prev.line || (line == prev.line && col > prev.col)) {
 				placed = true
 				prev = cur
 				break
